@@ -2,9 +2,10 @@
    Only ExtrOcamlBasic is used (bool, option, unit, list, prod, sumbool -> OCaml natives; andb/orb/fst/snd inlined);
    nat, positive, N and Z stay the inductive Coq types. *)
 From Coq Require Import ExtrOcamlBasic.
-From BB.Model Require Channel Cleaner Buffer.
+From BB.Model Require Channel Cleaner Buffer Callable.
 Separate Extraction
   Channel.init Channel.step Channel.run Channel.spec_init Channel.spec_step Channel.spec_run Channel.abs
   Buffer.init Buffer.step Buffer.step_settled Buffer.run Buffer.clean Buffer.settle Buffer.buffer_range Buffer.pkg_range
   Buffer.erun
+  Callable.call Callable.valid Callable.nilable Callable.expected_args Callable.expected_stores
   Cleaner.default_cleaner Cleaner.fixed_cleaner Cleaner.clamp_shift Cleaner.default_spec.
